@@ -12,10 +12,11 @@ def run(c):
         'documents: Conformant(M); at most one event-less transition, no event-less self loops (live-locking documents are outside the bound); runs settling within 12 microsteps',
         'pre-state: arbitrary legal configuration, empty history, optional pending internal event',
     ]
+    c.assumptions += ['termination is part of the claim: a path of the real loop that exhausts the step budget (3 M MIR statements; the longest legitimate path needs < 100 k) counts as a hang and is reported if the native replay does not terminate either']
     c.outside += ['real thread interleavings on the external queue (C13: not applicable)', 'more than 3 transitions / 3 external events', 'invoke processing inside the loop (C14)']
     for h in (QUICK if c.tier == 'quick' else THOROUGH):
         if h == 'h_queues':
             c.run_m(h, expect_checks=(310,), expect_cover=(310,), only={310}, bounds={'raises': '1..3'})
         else:
-            c.run_m(h, expect_checks=(301, 302), expect_cover=(301,), only={301, 302}, diff_samples=3,
+            c.run_m(h, expect_checks=(301, 302), expect_cover=(301,), only={301, 302}, diff_samples=3, env={'budget_is_hang': True},
                     bounds={'transitions': '2..3 (source, target, trigger in {event-less guarded, e1, i1}, raise in body)', 'external events': '2 symbolic (e1|e2) + cancel'})
